@@ -397,4 +397,4 @@ def replay(ctx, path):
         print('split_command_line(%r) = %r expected %r' % (d['command_line'], got, d['expected']))
         return 0 if got == d['expected'] else 1
     print(json.dumps(d, indent=1))
-    return 1
+    return None      # no dedicated replay for this kind of case: check.py re-runs the check with the recorded seed
